@@ -5,11 +5,24 @@
    trivial move, reopen with log recovery) with arbitrary entries, arbitrary cuts of the outputs
    into files and a rollover of the manifest after any edit; `all_accepted` asks that output names
    are new or name identical contents (no setsum collision), that a compaction names distinct
-   inputs and that the merged input of a GC holds distinct (key, timestamp) pairs. *)
+   inputs and that the merged input of a GC holds distinct (key, timestamp) pairs.
+
+   MODELLED ASSUMPTION (atomic commit).  A step of the model commits its transaction atomically:
+   [take the tree; record I = its setsum, O = I - D, D; write the edit; install the new tree] is one
+   transition, so I is read AT THE COMMIT POINT and the next transaction starts from this one's O.
+   In lsmtk that is what holding the `compaction` mutex across take_snapshot / compute_setsum /
+   mani.apply / install_version in apply_manifest_ingest and apply_manifest_compaction provides;
+   a history of the model is therefore an interleaving of ingests and compaction COMMITS, not of
+   their unlocked preparations.  The theorems say nothing about a store that reads the tree before
+   it takes that lock.  The assumption is validated against the real threads on every run by the
+   concurrent stage of checks/c04.py (real compaction_thread()s racing with ingesting threads; the
+   recorded manifest history is audited by the oracle and by the extracted verifier). *)
 From Coq Require Import NArith List Permutation.
 From Blue Require Import Gen.Const_Setsum Setsum.Model Setsum.Proofs Setsum.Props_C14.
+From Blue Require Lsm.Model Lsm.History.
 From Blue Require Import Books.Model Books.ProofsGroup Books.ProofsChain Books.ProofsVerify Books.ProofsGc
-                         Books.ProofsStore Books.ProofsTamper Books.ProofsDigit Books.ProofsHex Books.ProofsRaw.
+                         Books.ProofsStore Books.ProofsTamper Books.ProofsDigit Books.ProofsHex Books.ProofsRaw
+                         Books.Bridge Books.ProofsBridgeLsm Books.ProofsBridge.
 Import ListNotations.
 Open Scope N_scope.
 
@@ -239,6 +252,62 @@ Proof.
   reflexivity.
 Qed.
 
+(* 7. The bridge to the C01 model.  EVERY accepted history of Lsm/History.v (writes, ingests,
+   flushes, admissible compactions and GCs on 16 levels, reopens with any admissible re-levelling;
+   from any starting sequence number), mapped step by step by Books/Bridge.v (flush = ingest of the
+   sorted memtable, compaction = the Books compaction with the inputs named by the setsums of their
+   contents and the outputs' lengths as cuts, GC with the collector = what the outputs kept), runs
+   in the Books model, and at its end
+   - the Books tree holds exactly the files of the Lsm version (as a multiset of entry lists), so
+     every file name = setsum of the file's entries and the manifest lists exactly those files;
+   - the recorded O is the setsum of ALL entries held by the files of the Lsm version;
+   - the whole log balances (I = O + D, D + sum(added) = sum(removed), I_n = O_(n-1), roll-ups) and
+     the offline verifier accepts it.
+   The hypotheses of the bridge are the boolean `bridge_okb`: per mapped step the Books acceptance
+   (no setsum collision between different files, distinct inputs, distinct (key, timestamp) pairs
+   in a GC's merged input), the collector returns what that GC's outputs hold, a reopen keeps the
+   files and its log's sst is not already listed.  A rollover may follow any edit (`rolls`). *)
+Lemma perm_concat {A} (l l' : list (list A)) : Permutation l l' -> Permutation (concat l) (concat l').
+Proof.
+  induction 1 as [|x l l' _ IH|x y l|l l' l'' _ IH1 _ IH2]; cbn [concat].
+  - constructor.
+  - now apply Permutation_app_head.
+  - rewrite !app_assoc. apply Permutation_app_tail, Permutation_app_comm.
+  - now apply Permutation_trans with (concat l').
+Qed.
+
+Theorem C04_lsm_histories_balance : forall H, hash_ok H -> forall coll rolls n ops,
+  Lsm.History.all_accepted (Lsm.History.init_at n) ops = true ->
+  bridge_okb H rolls coll (Lsm.History.init_at n) open_fresh ops = true ->
+  exists b, brun H coll open_fresh (books_of H rolls (Lsm.History.init_at n) ops) = Ok b /\
+    let v := Lsm.Model.ver (Lsm.History.run (Lsm.History.init_at n) ops) in
+    Permutation (map Lsm.Model.fents (Lsm.Model.flat v)) (map bents (btree b)) /\
+    Permutation (mstrs (bman b)) (map (builder_setsum H) (map bents (btree b))) /\
+    mO (bman b) = builder_setsum H (Lsm.Model.file_entries v) /\
+    frags_ok zero (fragments b) /\ log_end zero (fragments b) = mO (bman b) /\
+    verify_frags H coll (bdisk b) (rfragments b) zero = Ok (mO (bman b)).
+Proof.
+  intros H Hok coll rolls n ops Hacc Hbr.
+  assert (J0 : J H coll (Lsm.History.init_at n) open_fresh).
+  { split; [apply inv_open_fresh|]. split; [unfold R; cbn; constructor|]. cbn. discriminate. }
+  destruct (bridge_run H Hok coll rolls ops _ _ J0 Hacc Hbr) as (b & Erun & (I & HR & _)).
+  exists b. split; [exact Erun|]. cbv zeta.
+  destruct (inv_log H coll b I) as (Hf & Hne & He).
+  split; [exact HR|]. split.
+  { eapply Permutation_trans.
+    - apply NoDup_Permutation; [apply (inv_strs_nodup H coll b I)|apply (inv_nodup H coll b I)|apply (inv_strs H coll b I)].
+    - unfold names. rewrite map_map. rewrite (map_ext_in bsum (fun g => builder_setsum H (bents g))); [reflexivity|].
+      intros g Hg. now apply (tree_names_are_setsums H coll b I). }
+  split.
+  { rewrite (inv_O H coll b I), (compute_setsum_entries H Hok) by apply (inv_files H coll b I).
+    apply (builder_setsum_perm H Hok). unfold Lsm.Model.file_entries. rewrite flat_map_concat_map.
+    apply perm_concat, Permutation_sym, HR. }
+  split; [exact Hf|]. split; [unfold fragments; now rewrite log_end_snoc|].
+  unfold rfragments. rewrite (verify_frags_complete H coll (bdisk b) (fragments b) zero);
+    [|apply (inv_canon H coll b I)|exact Hf|apply (inv_gc H coll b I)].
+  unfold fragments. now rewrite log_end_snoc, He.
+Qed.
+
 (* ---- non-vacuity: a concrete history (two flushes, a merging compaction cut into two files with
    a rollover, a flush, a GC that drops two entries, a trivial move, a reopen that recovers a log)
    is accepted, runs, and its log verifies; the hypotheses of the tamper theorems are satisfiable ---- *)
@@ -298,3 +367,29 @@ Proof.
   - intros e e' He He' Hne. cbn in He, He'.
     destruct He as [<-|[<-|[<-|[]]]]; destruct He' as [<-|[<-|[<-|[]]]]; try (now contradiction Hne); vm_compute; discriminate.
 Qed.
+
+(* the bridge's hypotheses are satisfiable: the example history of Lsm/Props_C01.v extended by a GC
+   into the last level; the collector is the history's own table *)
+Definition ex_lsm_ops : list Lsm.History.op :=
+  let mkE := Lsm.Model.mkE in let mkF := Lsm.Model.mkF in let mkC := Lsm.Model.mkC in
+  [ Lsm.History.OWrite [([1], Some [10]); ([2], Some [20])];
+    Lsm.History.OFlush 100 50;
+    Lsm.History.OWrite [([1], None)];
+    Lsm.History.OWrite [([3], Some [30])];
+    Lsm.History.OFlush 101 50;
+    Lsm.History.OCompact (mkC 0%nat 1%nat [1] [3] [100; 101])
+             [mkF 200 [mkE [1] 5 None; mkE [1] 3 (Some [10]); mkE [2] 3 (Some [20])] 40; mkF 201 [mkE [3] 6 (Some [30])] 30];
+    Lsm.History.OCompact (mkC 1%nat 2%nat [3] [3] [201]) [mkF 201 [mkE [3] 6 (Some [30])] 30];
+    Lsm.History.OGc (mkC 1%nat 15%nat [1] [2] [200]) [mkF 300 [mkE [1] 5 None; mkE [2] 3 (Some [20])] 30];
+    Lsm.History.OWrite [([2], None)];
+    Lsm.History.OReopen 102 20
+      ([[mkF 102 [mkE [2] 8 None] 20]; []; [mkF 201 [mkE [3] 6 (Some [30])] 30]] ++ repeat [] 12 ++
+       [[mkF 300 [mkE [1] 5 None; mkE [2] 3 (Some [20])] 30]]) 10 ].
+
+Example ex_lsm_accepted : Lsm.History.all_accepted (Lsm.History.init_at 2) ex_lsm_ops = true.
+Proof. vm_compute. reflexivity. Qed.
+
+Example ex_lsm_bridge_ok :
+  bridge_okb H_ex (fun k => Nat.even k) (coll_of (gc_table (Lsm.History.init_at 2) ex_lsm_ops))
+             (Lsm.History.init_at 2) open_fresh ex_lsm_ops = true.
+Proof. vm_compute. reflexivity. Qed.
